@@ -1,11 +1,14 @@
 //! vh - the Rust side of the correspondence checks.  Each subcommand runs the REAL
 //! amiquip code on generated / enumerated / corpus cases and writes what it did as
 //! Coq terms (case files) for the model and the property oracle to judge.
+mod absframe;
 mod c06;
 mod c10;
 mod c14;
 mod c15;
 mod consts;
+mod core;
+mod coregen;
 mod coqfmt;
 mod rng;
 mod wire;
@@ -72,6 +75,9 @@ fn main() {
         "c10" => c10::run(&a),
         "c14" => c14::run(&a),
         "c15" => c15::run(&a),
+        "coremix" => coregen::run(&a, "CORE", "CoreMix", &["mix", "c07", "c03"]),
+        "c03" => coregen::run(&a, "C03", "C03", &["c03"]),
+        "c07" => coregen::run(&a, "C07", "C07", &["c07", "c07", "mix"]),
         other => {
             eprintln!("unknown property driver {}", other);
             std::process::exit(2);
